@@ -20,11 +20,19 @@ type Mutex struct{ mu sync.Mutex }
 
 func (m *Mutex) Lock() {
 	if !rt.MutexLock(m) {
-		m.mu.Lock()
+		if rt.Sequential() {
+			if !m.mu.TryLock() {
+				panic(rt.SelfDeadlock{What: "Lock"})
+			}
+		} else {
+			m.mu.Lock()
+		}
+		rt.NoteHeld(m, false, m.mu.Unlock)
 	}
 }
 func (m *Mutex) Unlock() {
 	if !rt.MutexUnlock(m) {
+		rt.NoteReleased(m, false)
 		m.mu.Unlock()
 	}
 }
@@ -34,21 +42,37 @@ type RWMutex struct{ mu sync.RWMutex }
 
 func (m *RWMutex) Lock() {
 	if !rt.MutexLock(m) {
-		m.mu.Lock()
+		if rt.Sequential() {
+			if !m.mu.TryLock() {
+				panic(rt.SelfDeadlock{What: "Lock"})
+			}
+		} else {
+			m.mu.Lock()
+		}
+		rt.NoteHeld(m, false, m.mu.Unlock)
 	}
 }
 func (m *RWMutex) Unlock() {
 	if !rt.MutexUnlock(m) {
+		rt.NoteReleased(m, false)
 		m.mu.Unlock()
 	}
 }
 func (m *RWMutex) RLock() {
 	if !rt.MutexRLock(m) {
-		m.mu.RLock()
+		if rt.Sequential() {
+			if !m.mu.TryRLock() {
+				panic(rt.SelfDeadlock{What: "RLock"})
+			}
+		} else {
+			m.mu.RLock()
+		}
+		rt.NoteHeld(m, true, m.mu.RUnlock)
 	}
 }
 func (m *RWMutex) RUnlock() {
 	if !rt.MutexRUnlock(m) {
+		rt.NoteReleased(m, true)
 		m.mu.RUnlock()
 	}
 }
